@@ -536,6 +536,36 @@ impl<P: Protocol> Default for NetSim<P> {
     }
 }
 
+/// A sealed datagram as a party WITHOUT any secret can fabricate it: envelope (key id, 7 counter bytes, ciphertext,
+/// tag) under a guessable key - 0 all-zero, 1 all-ones, 2 all 0x01, 3 counting bytes, 4 the public PBKDF2 salt.
+pub fn forge_sealed(cipher: u8, guess: u8, key_id: u8, half: u8, counter: u64, plaintext: &[u8]) -> Vec<u8> {
+    use ring::aead::{Aad, LessSafeKey, Nonce, UnboundKey, AES_128_GCM, AES_256_GCM, CHACHA20_POLY1305};
+    let al = match cipher % 3 {
+        0 => &AES_128_GCM,
+        1 => &AES_256_GCM,
+        _ => &CHACHA20_POLY1305,
+    };
+    let kl = al.key_len();
+    let g: Vec<u8> = match guess % 5 {
+        0 => vec![0u8; kl],
+        1 => vec![0xffu8; kl],
+        2 => vec![1u8; kl],
+        3 => (0..kl as u8).collect(),
+        _ => b"vpncloudVPNCLOUDvpncl0udVpnCloud"[..kl].to_vec(),
+    };
+    let key = LessSafeKey::new(UnboundKey::new(al, &g).unwrap());
+    let mut nonce = [0u8; 12];
+    nonce[0] = half;
+    nonce[5..].copy_from_slice(&(counter & 0x00ff_ffff_ffff_ffff).to_be_bytes()[1..]);
+    let mut body = plaintext.to_vec();
+    let tag = key.seal_in_place_separate_tag(Nonce::assume_unique_for_key(nonce), Aad::empty(), &mut body).unwrap();
+    let mut wire = vec![key_id];
+    wire.extend_from_slice(&nonce[5..]);
+    wire.extend_from_slice(&body);
+    wire.extend_from_slice(tag.as_ref());
+    wire
+}
+
 /// An Ethernet frame dst(6) src(6) ethertype payload
 pub fn eth_frame(dst: [u8; 6], src: [u8; 6], vlan: Option<u16>, payload: &[u8]) -> Vec<u8> {
     let mut f = vec![];
